@@ -132,6 +132,23 @@ theorem sinv_req {v : Svc} (h : SInv v) (k : Nat) : SInv (svcStep v (.req k)).1 
   · simp only [svcStep, opsOf, h0, if_false, runFrom]
     exact ⟨h.idle, h.running, h.only, h.owned, fun _ => h0⟩
 
+theorem sinv_reqAgain {v : Svc} (h : SInv v) (k : Nat) : SInv (svcStep v (.reqAgain k)).1 := by
+  by_cases h0 : v.own = 0
+  · have hc := h.idle
+    simp only [svcStep, opsOf, h0, if_true, runFrom, step, hc, Option.isSome_none, Bool.false_eq_true, if_false]
+    constructor
+    · simp [create, hc]
+    · simp [create, h.running]
+    · intro id hm
+      by_cases e : id = v.t.nextId + 1
+      · simp [create, e]
+      · simp [create, setTm_tm_other _ _ _ _ e] at hm
+        have := (h.only id hm).2; exact absurd h0 this
+    · intro _; simp [create, checkPeriod]
+    · intro _; simp [create]
+  · simp only [svcStep, opsOf, h0, if_false, runFrom]
+    exact ⟨h.idle, h.running, h.only, h.owned, fun _ => h0⟩
+
 theorem sinv_resp {v : Svc} (h : SInv v) (k : Nat) : SInv (svcStep v (.resp k)).1 := by
   simp only [svcStep, opsOf, runFrom]
   refine ⟨h.idle, h.running, h.only, h.owned, ?_⟩
@@ -244,9 +261,61 @@ theorem sinv_tick {v : Svc} (h : SInv v) (hw : WF v.t) : SInv (svcStep v .tick).
             exact h.only id hm
         · intro _; simp [om, op, oc, ol, os]
 
+/-- the busy tick in full: requests are outstanding and the loop receives a live object — it is
+the owned timer; `checkExpired` drops the entries whose deadline has passed, their completion
+callbacks add the follow-up requests, no timer is armed from inside the callback
+(`tryStartCheckTimer` finds `timerCheckExpired > 0`), `Do` re-arms the owned timer -/
+theorem tick_busy {v : Svc} (h : SInv v) (hw : WF v.t) (he : entered v = true) (hp : v.pending.isEmpty = false) :
+    (svcStep v .tick).1.own = v.own ∧ v.own ≠ 0 ∧
+    (svcStep v .tick).1.pending = (v.pending.filter fun p => !(decide (p.2 < v.t.now))) ++ followUps v ∧
+    (svcStep v .tick).2 = [Event.cb v.own v.t.now (v.t.tm v.own).args, Event.rearm v.own v.t.now checkPeriod] ∧
+    ((svcStep v .tick).1.t.tm v.own).armed = true ∧ ((svcStep v .tick).1.t.tm v.own).exp = v.t.now + checkPeriod := by
+  have hc := h.idle
+  cases hq : v.t.queue with
+  | nil => simp [entered, hq] at he
+  | cons hd tl =>
+    cases hcc : (v.t.tm hd).cancelled with
+    | true => simp [entered, hq, hcc] at he
+    | false =>
+      obtain ⟨hown, hn0⟩ := head_is_own h hw hq hcc
+      subst hown
+      obtain ⟨om, op, oc, ol, os⟩ := h.owned hn0
+      simp only [svcStep, he, hp, Bool.false_eq_true, if_false, tick_keep hc hq hcc os op hp]
+      simp [hn0]
+
+/-- the events of a tick, whatever the state of the service: nothing, or the owned timer's
+callback followed by its cancellation (idle) or by its re-arming (busy) — never a `created` -/
+theorem tick_events {v : Svc} (h : SInv v) (hw : WF v.t) :
+    (svcStep v .tick).2 = [] ∨
+    (svcStep v .tick).2 = [Event.cb v.own v.t.now (v.t.tm v.own).args, Event.cancel v.own v.t.now] ∨
+    (svcStep v .tick).2 = [Event.cb v.own v.t.now (v.t.tm v.own).args, Event.rearm v.own v.t.now checkPeriod] := by
+  have hc := h.idle
+  cases hq : v.t.queue with
+  | nil =>
+    have he : entered v = false := by simp [entered, hq]
+    left; simp only [svcStep, he, tick_nil hc hq]; rfl
+  | cons hd tl =>
+    cases hcc : (v.t.tm hd).cancelled with
+    | true =>
+      have he : entered v = false := by simp [entered, hq, hcc]
+      left; simp only [svcStep, he, tick_skip hc hq hcc]; rfl
+    | false =>
+      obtain ⟨hown, hn0⟩ := head_is_own h hw hq hcc
+      subst hown
+      obtain ⟨om, op, oc, ol, os⟩ := h.owned hn0
+      have he : entered v = true := by simp [entered, hq, hcc, hc]
+      cases hp : v.pending.isEmpty with
+      | true =>
+        right; left
+        simp [svcStep, he, hp, tick_free hc hq hcc os om ol hp]
+      | false =>
+        right; right
+        simp [svcStep, he, hp, tick_keep hc hq hcc os op hp]
+
 theorem sinv_step {v : Svc} (h : SInv v) (hw : WF v.t) (op : SOp) : SInv (svcStep v op).1 := by
   cases op with
   | req k => exact sinv_req h k
+  | reqAgain k => exact sinv_reqAgain h k
   | resp k => exact sinv_resp h k
   | tick => exact sinv_tick h hw
   | expire x => exact sinv_expire h x
